@@ -1185,6 +1185,14 @@ func (x *Exec) effectsOfCall(fr *Frame, ci ssa.CallInstruction, eff *loopEffects
 			}
 		}
 		if x.topFC != nil {
+			if ln := localFuncNameOf(c.Value); ln != "" {
+				for _, pat := range x.topFC.Abstract {
+					fs := strings.Fields(pat)
+					if len(fs) >= 3 && fs[0] == "call" && fs[2] == "pure" && fs[1] == "local."+ln {
+						return
+					}
+				}
+			}
 			if pn := paramNameOf(c.Value); pn != "" {
 				for _, pat := range x.topFC.Abstract {
 					fs := strings.Fields(pat)
